@@ -393,7 +393,9 @@ func (c16) Run(t TestingT, scn json.RawMessage, tape *Tape) *Outcome {
 	// resolvers that observe the context and ran after the cancellation fail
 	// with the context's error: the complete response is then the solo response
 	// of the same request with exactly those resolvers failing that way
-	if idxCancel >= 0 && ctxErrText != "" {
+	// (an extension that hands back detached contexts takes the cancellation away
+	// from the resolvers: they cannot observe it)
+	if idxCancel >= 0 && ctxErrText != "" && !sc.ExtDetach {
 		f2 := map[string]string{}
 		for k, v := range faults {
 			f2[k] = v
@@ -452,7 +454,7 @@ func (c16) Run(t TestingT, scn json.RawMessage, tape *Tape) *Outcome {
 		if got != solo && !isCtxErr(got) {
 			o.Violate("C16/neither", "both ready: response is neither solo nor the context error\n got: %s\nsolo: %s", got, solo)
 		}
-	case idxSend >= 0 && idxSend < idxReturned && c16SameStep(s.Trace, idxCancel, idxReturned):
+	case idxSend >= 0 && idxReturned >= 0 && s.Trace[idxSend].Step <= s.Trace[idxReturned].Step && c16SameStep(s.Trace, idxCancel, idxReturned):
 		// The context was already done when the call started and the executor
 		// ran to its result send without stopping at any gate, all within one
 		// scheduler step: whether the caller's select saw only ctx.Done() or
